@@ -35,12 +35,12 @@ CLAIMED = {
    "Real file system and stock urllib FileHandler; the url-helper sub-clause is input enumeration (stated in DESIGN).",
    "deterministic simulation: seeded file-system/cwd environments with decoys, entry-point differential + open-history oracle", "4/C18"),
  "C19": ("fault_enumeration",
-   "For every sampled schema-load or config-load scenario (<=5 resources over file:, http:, package: URLs) a reconnaissance run records every seam call and then one run per failure point (each open, stream read, get_data, each readline/read call of each resource incl. EOF, each conversion / section-datatype / key-type call, typed text faults; for a third of the points a second faulty load follows on the same loader) checks closure of every Resource, transport stream, simulated connection (observed when the exception reaches the caller) and of the stream handed to load*File, close-before-parse ordering, an unchanged fault-free rerun and an unchanged use-without-import probe; failure points include interruptions that are BaseException. Exhaustive over failure points per scenario, sampled over scenarios.",
+   "For every sampled schema-load or config-load scenario (<=5 resources over file:, http:, package: URLs) a reconnaissance run records every seam call and then one run per failure point (each open, stream read, get_data, each readline/read call of each resource incl. EOF, each conversion / section-datatype / key-type call, typed text faults; for a third of the points a second faulty load follows on the same loader) checks closure of every Resource, transport stream, simulated connection (observed when the exception reaches the caller) and of the stream handed to load*File, close-before-parse ordering, an unchanged fault-free rerun, an unchanged use-without-import probe and an unchanged twin-import probe (a same-named type of another package must not get past the abstract slot after a failed load; the stale implementer name found there is the recorded finding KF-5); failure points include interruptions that are BaseException. Exhaustive over failure points per scenario, sampled over scenarios.",
    "Asynchronous exceptions between arbitrary bytecodes are not modelled (not stated by the property).",
    "deterministic simulation: crash-point enumeration from a reconnaissance run, resource-closure and post-failure-rerun oracles", "4/C19"),
  "C20": ("exploration",
    "Seeded logger configurations and histories of {call factory, reopen, close all, drop / retire handlers, gc, emit, advance clock, external rotation / re-pointed symlink, closeFiles with ENOSPC, reopenFiles with an unusable path} under a simulated clock, disabled GC and a scratch log directory; reference model of levels, handler classes, formats and of the set of live reopenable handlers.",
-   "Real logging/logging.handlers; syslog/http/smtp handlers are constructed but never emit.",
+   "Real logging/logging.handlers; <logfile>, <syslog>, <http-logger> and <email-notifier> sections; the network side of the last three (socket creation, emit) is a stub that records the formatted record.",
    "deterministic simulation: seeded operation histories with simulated clock and controlled finalisation against a reference model", "4/C20"),
 }
 
